@@ -1,7 +1,11 @@
 package checks
 
 import (
+	"bytes"
+	"compress/gzip"
 	"fmt"
+	"io"
+	"sync/atomic"
 	"math/rand/v2"
 	"strings"
 	"testing"
@@ -59,6 +63,94 @@ func genC10(rng *rand.Rand) c10Case {
 	c.Upgraded = c.Transport != "polling" && c.Limit >= 100 && rng.IntN(2) == 0
 	c.PMD = c.Transport == "websocket" && rng.IntN(3) == 0
 	return c
+}
+
+// cntBody counts what the library reads from a request body.
+type cntBody struct {
+	r io.Reader
+	c io.Closer
+	n *atomic.Int64
+}
+
+func (b *cntBody) Read(p []byte) (int, error) {
+	n, err := b.r.Read(p)
+	b.n.Add(int64(n))
+	return n, err
+}
+func (b *cntBody) Close() error { return b.c.Close() }
+
+// runC10Inflated: the declared Content-Length is that of a compressed body; an application
+// middleware (Server.Use) replaces the body by its inflated form, as transparent request
+// decompression does.  The limit is about what the transport reads, whatever was declared.
+func runC10Inflated(limit int64, size int, rev int, r *rep.Report) (key, msg string) {
+	rig.Bubble(r.T(), func() {
+		so := &config.ServerOptions{}
+		so.SetAllowEIO3(true)
+		so.SetMaxHttpBufferSize(limit)
+		so.SetPingInterval(20 * time.Second)
+		w := rig.NewWorld(rig.Options{Server: so})
+		defer w.Finish()
+		var consumed atomic.Int64
+		w.Eng.Use(func(ctx *types.HttpContext, next func(error)) {
+			q := ctx.Request()
+			if q.Method == "POST" && q.Header.Get("Content-Encoding") == "gzip" {
+				zr, err := gzip.NewReader(q.Body)
+				if err != nil {
+					next(err)
+					return
+				}
+				q.Header.Del("Content-Encoding")
+				q.Body = &cntBody{r: zr, c: q.Body, n: &consumed}
+			}
+			next(nil)
+		})
+		cl, err := w.Connect(rig.ClientCfg{Rev: rev, Transport: "polling"})
+		rig.Wait()
+		if err != nil {
+			key, msg = "c10-handshake-failed", err.Error()
+			return
+		}
+		cl.StartReader()
+		time.Sleep(time.Millisecond)
+		rig.Wait()
+		inner := "4" + strings.Repeat("a", size-1)
+		plain := inner
+		if rev == 3 {
+			plain = fmt.Sprintf("%d:%s", len(inner), inner)
+		}
+		var zb bytes.Buffer
+		zw := gzip.NewWriter(&zb)
+		zw.Write([]byte(plain))
+		zw.Close()
+		res := w.Do(rig.ReqSpec{Method: "POST", Target: "/engine.io/?EIO=" + fmt.Sprint(rev) + "&transport=polling&sid=" + cl.Sid,
+			Header: map[string][]string{"Content-Type": {"text/plain;charset=UTF-8"}, "Content-Encoding": {"gzip"}}, Body: zb.Bytes()})
+		time.Sleep(10 * time.Millisecond)
+		rig.Wait()
+		for _, e := range w.Tap.Of(cl.Sid, "message") {
+			if int64(len(e.Str)) > limit {
+				key, msg = "c10-oversized-message-delivered:polling", fmt.Sprintf("a message of %d bytes was delivered with maxHttpBufferSize %d: the body declared %d bytes (compressed) and a middleware inflated it to %d", len(e.Str), limit, zb.Len(), len(plain))
+				return
+			}
+		}
+		if int64(len(plain)) > limit {
+			if res.Err == nil && res.Status != 413 {
+				key, msg = "c10-oversized-body-not-refused", fmt.Sprintf("body inflated by a middleware to %d bytes (declared %d, limit %d) answered %d %q, expected 413", len(plain), zb.Len(), limit, res.Status, res.Body)
+				return
+			}
+			if consumed.Load() > limit+readSlack {
+				key, msg = "c10-oversized-body-consumed", fmt.Sprintf("the transport read %d bytes of a body inflated to %d bytes (limit %d + slack %d)", consumed.Load(), len(plain), limit, readSlack)
+				return
+			}
+		} else if res.Status != 200 {
+			key, msg = "c10-admissible-body-refused", fmt.Sprintf("body inflated to %d bytes (limit %d) answered %d", len(plain), limit, res.Status)
+			return
+		} else if n := len(w.Tap.Of(cl.Sid, "message")); n != 1 {
+			key, msg = "c10-admissible-body-not-delivered", fmt.Sprintf("%d message events for one admissible inflated body of %d bytes", n, len(plain))
+			return
+		}
+		cl.Stop()
+	})
+	return
 }
 
 func runC10(c c10Case, rng *rand.Rand, r *rep.Report) (key, msg string, stats map[string]int64) {
@@ -269,10 +361,29 @@ func runC10(c c10Case, rng *rand.Rand, r *rep.Report) (key, msg string, stats ma
 func TestC10(t *testing.T) {
 	r := rep.New(t, "C10")
 	defer r.Flush()
-	r.Rule("PRNG cases: limit in {1,10,100,4096,65536,200000} x size in {limit-1, limit, limit+1, limit+2, 2x, 4x, 64x, limit+600000, ...} x polling bodies with declared Content-Length or chunked transfer (real net/http parsing), single and multi-packet, revision 3 and 4 x WebSocket frames (plain, and compressed with permessage-deflate: the limit is about what the message inflates to) x WebTransport frames, on fresh sessions and on sessions upgraded from polling; oracle: no message event above the limit, oversized polling body answered 413, bytes consumed from the carrying connection bounded, oversized frame closes exactly that session, canary session keeps working; distinct = (transport, limit, size class, chunked, packets)")
+	r.Rule("PRNG cases: limit in {1,10,100,4096,65536,200000} x size in {limit-1, limit, limit+1, limit+2, 2x, 4x, 64x, limit+600000, ...} x polling bodies with declared Content-Length or chunked transfer (real net/http parsing) or a declared length that an application middleware makes wrong (compressed request body inflated in a Server.Use middleware), single and multi-packet, revision 3 and 4 x WebSocket frames (plain, and compressed with permessage-deflate: the limit is about what the message inflates to) x WebTransport frames, on fresh sessions and on sessions upgraded from polling; oracle: no message event above the limit, oversized polling body answered 413, bytes consumed from the carrying connection bounded, oversized frame closes exactly that session, canary session keeps working; distinct = (transport, limit, size class, chunked, packets)")
 	r.Assume(fmt.Sprintf("the constant of the statement: %d bytes of read-buffer slack plus the %d bytes net/http itself may drain from an unread request body after the handler returned", readSlack, httpPostHandlerDrain))
 	if r.Lane == 1%r.Lanes {
 		quicLimit(r)
+	}
+	if r.Lane == 2%r.Lanes {
+		for k := 0; k < r.N(4, 64); k++ {
+			for _, limit := range []int64{100, 4096, 30000} {
+				for _, size := range []int{int(limit) - 1, int(limit), int(limit) + 1, 4 * int(limit), 1 << 20} {
+					for _, rev := range []int{4, 3} {
+						if rev == 3 && size == int(limit) {
+							continue // the length prefix makes the body longer than the message
+						}
+						key, msg := runC10Inflated(limit, size, rev, r)
+						r.Case(fmt.Sprintf("inflated/%d/%d/v%d", limit, size, rev), true)
+						r.Obs("bodies_inflated_by_a_middleware", 1)
+						if key != "" {
+							r.Violation(key, msg, map[string]any{"lane": "declared Content-Length of a compressed body, inflated by an application middleware", "limit": limit, "inflated_size": size, "rev": rev})
+						}
+					}
+				}
+			}
+		}
 	}
 	n := r.N(2000, 150000)
 	for i := 0; i < n; i++ {
